@@ -40,6 +40,11 @@ CHECKS = {
    technique="explicit-state BFS over event histories of the real plugin (fresh instance + replay per transition, virtual time) against a grid-window reference counter; exhaustive allocation table; schedule exploration of concurrent first requests",
    text="For 28 configurations (allowed 1-3; W 1, 2, 7 s; allocation tables with every default behaviour) every history up to depth 6 (8 thorough) over requests of two remedies x four group header values and clock steps landing exactly on / 1 ns after grid boundaries is executed on the real StrategyBasedThrottlingPlugin; verdicts must equal the per-(remedy, group, aligned window) reference (bound + sequential exactness + isolation). The complete table allowed 1..300 x pct 1..100 checks the rounded-up share, and all schedules (<=2 preemptions) of three concurrent first requests check the bound under concurrency.",
    note="state key = implementation dump + reference + phase (merging argued sound because the dump holds every field TryToIncrement reads); window-size changes not in the alphabet; virtual time via synctest"),
+
+ "C17": dict(level="exploration", engine="seqx-bfs", design="§3 C17",
+   technique="explicit-state BFS over provider-status histories of two interleaved sequences through the real retry remedy (policy mode) and a real Stream with the Retry processor (flows mode), harness plays the client protocol",
+   text="24 configurations (policy|flows x attempts 1-3 x cool-down 0-1 x multiplier 1-2); every history up to depth attempts+5 of provider statuses for two interleaved sequences plus clock steps (incl. beyond the state TTL in policy mode). Per logical call: retry instructions <= attempts, failure only after the attempts are used, out-of-condition statuses never retried, a call after a finished one starts afresh, sequences do not influence each other (reference is per sequence).",
+   note="flows-mode retry condition realised by a Filter processor; flows alphabet has one in- and one out-of-condition status; one known finding (counter kept after a successful retry in flows mode)"),
 }
 NA_REASON = "check not built yet in this round (work in progress; planned per DESIGN.md §3)"
 def main():
